@@ -166,6 +166,9 @@ func genDefs(t *rapid.T) []*Def {
 		default:
 			p := smallPat(t, rapid.IntRange(0, 2).Draw(t, "d"))
 			txt := p.String()
+			if rapid.IntRange(0, 5).Draw(t, "anchored") == 0 {
+				txt = "^" + txt // regex = [ "^" ] expr: the same language, a token is matched from its first character
+			}
 			if usedValue[txt] {
 				continue
 			}
